@@ -128,7 +128,7 @@ S_SEPS = [2e-07, 1e-04, 0.01, 1.0]
 S_BEARINGS = [0.0, 90.0, 200.0]
 
 RADII = [0.0, 1e-06, 1e-05, 1.5e-04, 0.015, 0.5, 1.5, 30.0, 90.0, 180.0]
-RADII_RINGS = [0.0, 1e-06, 1e-05, 1.5e-04, 0.015, 0.5, 1.5, 30.0, 90.0, 135.0, 180.0]
+RADII_RINGS = [0.0, 1e-06, 1e-05, 1.5e-04, 0.015, 0.5, 1.5, 30.0, 90.0, 135.0, 179.9975, 180.0 - 1e-5, 180.0]     # (near 180 the enlargement of a search circle by a fixed cosine margin grows without bound)
 DEPTHS_Q = [1, 2, 4, 7, 10, 13]
 DEPTHS_T = list(range(1, 14))
 MAXMATCH = [-1, 0, 1, 2, 3, 1000]
